@@ -72,6 +72,10 @@ def replay_known(pid):
     classes = set()
     for f in known_findings_for(pid):
         w = f['witness']
+        if w.get('interactive'):
+            # a history, not a one-shot input: the property module replays it and prints the line itself
+            classes.add(f['class'])
+            continue
         o = aglib.run_impl_one(w['query'], ''.join(w['input']).encode('utf8'), w.get('mode', 'json'))
         out = o['out'].decode('utf8', 'replace').strip()
         still = True
